@@ -78,7 +78,19 @@ func verifyUnit(p *Program, u *Unit) (res *UnitResult) {
 	}
 	// captured variables of a closure unit
 	if u.Lit != nil {
+		ownNames := map[string]bool{}
+		for i := 0; i < u.Sig.Params().Len(); i++ {
+			ownNames[u.Sig.Params().At(i).Name()] = true
+		}
+		for i := 0; i < u.Sig.Results().Len(); i++ {
+			ownNames[u.Sig.Results().At(i).Name()] = true
+		}
 		for _, cv := range r.capturedAndOuterParams(u) {
+			if ownNames[cv.Name()] && cv.Name() != "" && cv.Name() != "_" {
+				// an outer parameter shadowed by one of the closure's own: invisible to the body, and a contract that names
+				// it means the closure's parameter
+				continue
+			}
 			if _, isFn := cv.Type().Underlying().(*types.Signature); isFn {
 				if cu := r.lookupVarUnit(cv); cu != nil {
 					r.varUnit[cv] = cu
